@@ -86,13 +86,14 @@ type Exec struct {
 	shard        int
 	redirArgs    []Value
 	violSite     map[string]int
+	built        map[*ssa.Function]bool
 	nshards      int
 }
 
 func NewExec(prog *ssa.Program, cfg Config, solverBin []string, timeoutMs int) (*Exec, error) {
 	x := &Exec{prog: prog, tc: NewTermCtx(), cfg: cfg, fninfo: map[*ssa.Function]*FnInfo{},
 		AssertSites: map[string]int{}, ReachTags: map[string]int{}, FnsEncoded: map[string]bool{},
-		violSite: map[string]int{}, StubsHit: map[string]int{}, NontrivPaths: map[string]bool{}, unsupportedSeen: map[string]int{}}
+		violSite: map[string]int{}, built: map[*ssa.Function]bool{}, StubsHit: map[string]int{}, NontrivPaths: map[string]bool{}, unsupportedSeen: map[string]int{}}
 	s, err := NewSolver(x.tc, solverBin, timeoutMs)
 	if err != nil {
 		return nil, err
